@@ -221,14 +221,9 @@ class UPSequentialSimulator(Engine, SequentialSimulatorMixin):
             an `ActionInstance` is given instead.
         :return: Whether or not the action is applicable in the given `state`.
         """
-        try:
-            _, reason = self.get_unsatisfied_conditions(
-                state, action, parameters, early_termination=True, full_check=True
-            )
-            is_applicable = reason is None
-        except (UPInvalidActionError, UPStateMissingFluentError):
-            is_applicable = False
-        return is_applicable
+        # an action is applicable iff applying it yields a successor state: decide
+        # it exactly as _apply does, so that the two answers can never disagree
+        return self._apply(state, action, parameters) is not None
 
     def _apply(
         self,
